@@ -63,16 +63,23 @@ fn huge_case(seed: u64, run: u64) -> (st::CaseSpec, Vec<Op>) {
     let cap = u32::MAX - rng.below(9) as u32;
     let cfg = Cfg { sync: rng.chance(1, 2), backend: Backend::Vec, unify: rng.chance(1, 2), freelist: 1 + rng.below(2) as u8, cap, reserved: 0, min_seg: 8, max_align: 8, retries: 3, magic: 0, offset: 0 };
     let spec = st::CaseSpec { cfg, spurious_seed: None, finish_order: 1, remove_on_drop: false, shared_truncate: false };
-    // the cursor a few bytes below the end, then one request per alignment; a small handle in the last bytes is
-    // kept over the next rewind and released afterwards (its extent cannot become a segment)
+    // a grid instead of a sample (the arena is the expensive part, the calls are not): the cursor 0..=17 bytes below
+    // the end x every alignment class of the menu x {alloc::<T>, alloc_aligned_bytes::<T>(0..=2)}, each handle
+    // released again; then two small handles in the last bytes released in order (their extents cannot become segments)
     let mut ops = Vec::new();
-    for (k, ty) in [4u8, 3, 2, 5, 13, 14, 9].iter().enumerate() {
-        ops.push(Op::Rewind(Pos::Start(cap - 1 - ((k as u32 * 3 + rng.below(3) as u32) % 11))));
-        ops.push(match k % 3 {
-            0 => Op::Alloc { kind: AllocKind::Typed, ty: *ty, size: 0, owned: false, arena: 0 },
-            1 => Op::Alloc { kind: AllocKind::Aligned, ty: *ty, size: rng.below(3) as u32, owned: false, arena: 0 },
-            _ => Op::Alloc { kind: AllocKind::Typed, ty: *ty, size: 0, owned: k % 2 == 0, arena: 0 },
-        });
+    let _ = rng.next_u64();
+    for below in 0..=17u32 {
+        for ty in [1u8, 2, 3, 4, 5, 9, 11, 13, 14] {
+            for variant in 0..4u32 {
+                ops.push(Op::Rewind(Pos::Start(cap - below)));
+                ops.push(if variant == 0 {
+                    Op::Alloc { kind: AllocKind::Typed, ty, size: 0, owned: below % 2 == 1, arena: 0 }
+                } else {
+                    Op::Alloc { kind: AllocKind::Aligned, ty, size: variant - 1, owned: false, arena: 0 }
+                });
+                ops.push(Op::Drop { h: 0 });
+            }
+        }
     }
     ops.push(Op::Rewind(Pos::Start(cap - 12)));
     ops.push(Op::Alloc { kind: AllocKind::Bytes, ty: 0, size: 5, owned: false, arena: 0 });
@@ -334,6 +341,12 @@ fn run_one_inner(prop: &str, seed: u64, run: u64, tier: &str) -> RunSummary {
         let (spec, _, out) = crate::diff::gen_clear(seed, run);
         return summarise_diff(prop, &spec, &out, "clear");
     }
+    if prop == "C16" && run >= SWEEP_RUNS && run < SWEEP_RUNS + crate::diff::SWEEP_BOUNDARY.len() as u64 {
+        let (viols, n) = crate::diff::sweep_boundary((run - SWEEP_RUNS) as usize, run);
+        let mut probes = BTreeMap::new();
+        probes.insert("sweep:boundary_configurations".to_string(), n);
+        return RunSummary { viols, nontrivial: true, hash: crate::rng::mix(run ^ 0xC16B), state_hash: run, steps: 0, ops: n, faults: BTreeMap::new(), probes, sample: None };
+    }
     if prop == "C16" && run < SWEEP_RUNS {
         let (viols, n) = crate::diff::sweep(run as u32, run);
         let mut probes = BTreeMap::new();
@@ -411,6 +424,10 @@ pub fn minimise(prop: &str, seed: u64, run: u64, tier: &str, sig: &str) -> Optio
         let mut all = head.clone();
         all.extend_from_slice(&tail);
         return Some(diff_replay_json(prop, "clear", seed, run, &spec, &all, &v, Some(clear_at)));
+    }
+    if prop == "C16" && run >= SWEEP_RUNS && run < SWEEP_RUNS + crate::diff::SWEEP_BOUNDARY.len() as u64 {
+        // one construction per case: nothing to minimise, the seed-addressed replay file re-runs it
+        return None;
     }
     if prop == "C16" && run < SWEEP_RUNS {
         let (viols, _) = crate::diff::sweep(run as u32, run);
